@@ -2,6 +2,7 @@ package vsched
 
 import (
 	"fmt"
+	"os"
 	"runtime"
 	"sort"
 	"strings"
@@ -18,6 +19,9 @@ var (
 	GMu   sync.Mutex
 	GCond = sync.NewCond(&GMu)
 )
+
+// HangAfter is the wall-clock limit of a single execution (see Bubble).
+var HangAfter = 90 * time.Second
 
 // cur is the scheduler whose window is currently open (nil = every point passes straight through).
 var cur atomic.Pointer[Sched]
@@ -56,9 +60,20 @@ type Sched struct {
 	Blocked   []string                   // description of blocked threads at deadlock
 	Log       []string                   // optional decision log
 	scopeMemo sync.Map                   // pc -> bool
-	yieldRun  int
-	nextID    int
-	cleanups  []func()
+	// TimeStep > 0: when no thread and no event is enabled but harness threads are unfinished, the
+	// controller lets virtual time pass in steps of TimeStep (at most MaxIdleSteps in a row) before
+	// declaring a deadlock. Modelling assumption: timers fire only when nothing else can run.
+	// FairAfter > 0: a thread that has taken FairAfter consecutive decisions while other threads were
+	// enabled is treated as yielding (it is busy-waiting on somebody else's progress): switching away
+	// from it is free and it becomes the last choice. Keeps un-yielding spin loops finite.
+	FairAfter    int
+	consec       int
+	TimeStep     time.Duration
+	MaxIdleSteps int
+	idleSteps    int
+	yieldRun     int
+	nextID       int
+	cleanups     []func()
 }
 
 // last is the most recently created scheduler (used to unwind after a panic in the controller).
@@ -221,7 +236,7 @@ func (s *Sched) point(op string, skip int, pred func() bool, yield bool) bool {
 			s.mu.Unlock()
 			return false
 		}
-		t = s.register("auto:"+op, false)
+		t = s.register(fmt.Sprintf("auto%d", s.nextID), false)
 	}
 	s.mu.Unlock()
 	if !yield && skip >= 0 && !s.inScope(skip+1) {
@@ -313,6 +328,14 @@ func (s *Sched) RunUntil(stop func() bool) int {
 			events = s.Events()
 		}
 
+		if len(enabled) == 0 && len(events) == 0 && !s.AllDone() && s.TimeStep > 0 && s.idleSteps < s.MaxIdleSteps {
+			s.idleSteps++
+			time.Sleep(s.TimeStep)
+			continue
+		}
+		if len(enabled) > 0 || len(events) > 0 {
+			s.idleSteps = 0
+		}
 		if len(enabled) == 0 && len(events) == 0 {
 			if !s.AllDone() {
 				s.Deadlock = true
@@ -339,6 +362,14 @@ func (s *Sched) RunUntil(stop func() bool) int {
 		// canonical order: the running thread first when it is still enabled and not yielding,
 		// then the other non-yielding threads by id, then events, then yielding threads.
 		sort.SliceStable(enabled, func(i, j int) bool { return enabled[i].id < enabled[j].id })
+		if s.FairAfter > 0 && run != nil && s.consec >= s.FairAfter && len(enabled) > 1 {
+			for _, t := range enabled {
+				if t == run {
+					t.yield = true
+				}
+			}
+			s.consec = 0
+		}
 		var order []*thread
 		runningEnabled := false
 		for _, t := range enabled {
@@ -440,6 +471,11 @@ func (s *Sched) release(t *thread) {
 	s.mu.Lock()
 	t.parked = false
 	t.steps++
+	if s.running == t {
+		s.consec++
+	} else {
+		s.consec = 0
+	}
 	s.running = t
 	s.mu.Unlock()
 	t.gate <- struct{}{}
@@ -472,6 +508,21 @@ func Advance(d time.Duration) {
 // Bubble runs f inside a fresh synctest bubble. A panic of the bubble's root goroutine is recovered
 // and returned (a Divergence is re-raised outside the bubble so the explorer can classify it).
 func Bubble(t *testing.T, f func()) (panicked any) {
+	// Real-time watchdog (outside the bubble): an execution normally takes about a millisecond; one
+	// that has not finished after HangAfter of wall time is spinning without ever blocking (the bubble
+	// cannot reach quiescence). The process then records the goroutine dump and exits with code 3;
+	// the runner reports it as an "execution-hang" for checks that opted in, as a harness crash otherwise.
+	wd := time.AfterFunc(HangAfter, func() {
+		buf := make([]byte, 1<<20)
+		n := runtime.Stack(buf, true)
+		r := Rep()
+		r.mu.Lock()
+		r.Hang = string(buf[:n])
+		r.mu.Unlock()
+		r.Flush()
+		os.Exit(3)
+	})
+	defer wd.Stop()
 	synctest.Test(t, func(_ *testing.T) {
 		defer func() {
 			if p := recover(); p != nil {
@@ -481,6 +532,10 @@ func Bubble(t *testing.T, f func()) (panicked any) {
 					for _, f := range s.cleanups {
 						f()
 					}
+				}
+				// let pending timers run so that goroutines waiting on virtual time can finish
+				for i := 0; i < 100; i++ {
+					time.Sleep(100 * time.Millisecond)
 				}
 				cur.Store(nil)
 			}
